@@ -19,7 +19,7 @@ RULE = ("full product scatterer x theory x {6 shifts x 2 detector kinds, 9 "
         "transformed hologram")
 ASSUMPTIONS = ["alphabet values only", "the T-matrix theory accepts only "
                "polarization (1,0), so only shift and mirror apply to it"]
-TOLERANCES = {"shift": 1e-9, "shift-1e3": 1e-7, "rotation": 1e-9,
+TOLERANCES = {"mirror-tmatrix": 1e-7, "shift": 1e-9, "shift-1e3": 1e-7, "rotation": 1e-9,
               "rotation-multisphere": 1e-4, "mirror": 1e-9,
               "mirror-multisphere": 1e-4}
 TIMEOUT = 600
@@ -199,7 +199,8 @@ def _mirror_spec(sspec):
 def _run_mirror(case, ck):
     st = case["st"]
     sspec, tspec = H.ST[st]
-    tol = 1e-4 if _is_ms(st) else 1e-9
+    # T-matrix solutions reproduce their symmetries to ~3e-9 [floor 2.4e-9]
+    tol = 1e-4 if _is_ms(st) else (1e-7 if st.startswith("tm-") else 1e-9)
     fps = []
     # (a) general mirror y -> -y with x polarization (the mirror plane
     # contains the optical axis and the polarization)
